@@ -1,12 +1,12 @@
 package zv
 
 import (
-	"strconv"
 	"fmt"
 	"go/constant"
 	"go/token"
 	"go/types"
 	"sort"
+	"strconv"
 	"strings"
 
 	"golang.org/x/tools/go/ssa"
